@@ -31,7 +31,7 @@ Print Assumptions C19_update_is_repaint.
 (* vi_drawfix(r1, e-1, n, 0) after lines r1 .. e-1 were replaced by n lines: the screen that showed
    the old rows shows the full repaint of the new rows, provided the call lies in fix_pre (the
    change starts inside the window -- not a pure insertion on its first row --, or starts above it
-   and removes lines, or lies wholly below it) *)
+   and removes lines or reaches into the window, or lies wholly below it) *)
 Theorem C19_fix_is_repaint : forall (R : Type) (blank : R) (old new : nat -> R) W h r1 e n,
   1 <= h -> r1 <= e ->
   (forall i, i < r1 -> new i = old i) ->
@@ -74,25 +74,16 @@ Theorem C19_site_delete_chars : forall (R : Type) (blank : R) (line : Type) (img
   = win R (fimg R line img (splice line buf r1 (S r2) [l])) W h.
 Proof. exact site_delete_chars. Qed.
 Print Assumptions C19_site_delete_chars.
-(* vi_case (g~ gu gU ~) and vi_shift (> <): as many new lines as old ones; vi_drawfix(r1, r2, r2-r1+1, 0); region starting
-   inside the window *)
+(* vi_case (g~ gu gU ~) and vi_shift (> <): as many new lines as old ones; vi_drawfix(r1, r2, r2-r1+1, 0).  The region may start
+   above the window (g~k, >k, <1G on the first row of a scrolled window): true since fix 7ace771 of /repo -- the model before it
+   refuted this statement (finding KF-DRAWFIX-ABOVE, corpus/C19-kf-drawfix-above.json, found while stating this theorem) *)
 Theorem C19_site_same_count : forall (R : Type) (blank : R) (line : Type) (img : option line -> R) (buf ins : list line) W h xrow r1 r2,
-  W <= xrow < W + h -> W <= r1 <= xrow -> xrow <= r2 -> r2 < length buf -> length ins = S r2 - r1 ->
+  W <= xrow < W + h -> r1 <= xrow <= r2 -> r2 < length buf -> length ins = S r2 - r1 ->
   drawfix R blank (fimg R line img (splice line buf r1 (S r2) ins)) W h (Z.of_nat r1) (Z.of_nat r2) (Z.of_nat r2 - Z.of_nat r1 + 1)%Z
           (win R (fimg R line img buf) W h)
   = win R (fimg R line img (splice line buf r1 (S r2) ins)) W h.
 Proof. exact site_same_count. Qed.
 Print Assumptions C19_site_same_count.
-(* ... and for a region starting above the window (g~k, >k, <1G on the first row of a scrolled window) the call damages a
-   correct screen: finding KF-DRAWFIX-ABOVE, replayed on the real editor (corpus/C19-kf-drawfix-above.json) *)
-Theorem C19_site_same_count_above_refuted : exists (buf ins : list nat) W h r1 r2,
-  W <= r2 < W + h /\ r1 < W /\ r2 < length buf /\ length ins = S r2 - r1 /\
-  drawfix nat 0 (fimg nat nat (fun o => match o with Some x => x | None => 0 end) (splice nat buf r1 (S r2) ins)) W h
-          (Z.of_nat r1) (Z.of_nat r2) (Z.of_nat r2 - Z.of_nat r1 + 1)%Z
-          (win nat (fimg nat nat (fun o => match o with Some x => x | None => 0 end) buf) W h)
-  <> win nat (fimg nat nat (fun o => match o with Some x => x | None => 0 end) (splice nat buf r1 (S r2) ins)) W h.
-Proof. exact case_above_refuted. Qed.
-Print Assumptions C19_site_same_count_above_refuted.
 (* vc_put of a character-wise register (line xrow becomes the lines of pref ++ register ++ post; vi_drawfix(xrow, xrow, lncnt, 0)
    with lncnt = linecount - 1 = their number) and vc_replace (one line, or cnt+1 lines for r<CR>) *)
 Theorem C19_site_replace_line : forall (R : Type) (blank : R) (line : Type) (img : option line -> R) (buf ins : list line) W h xrow,
